@@ -144,6 +144,8 @@ func main() {
 	r.Finish()
 }
 
+var edgeKeys = []string{"\x00", "\x00\x00", strings.Repeat("\xff", 1019), strings.Repeat("\xff", 1024), strings.Repeat("\xff", 1019) + "\x00", "\xff", "\x00a"}
+
 func genContent(g *rand.Rand, table string, big bool) []model.KV {
 	n := 12 + g.Intn(10)
 	switch g.Intn(7) {
@@ -173,6 +175,15 @@ func genContent(g *rand.Rand, table string, big bool) []model.KV {
 			}
 		}
 		out = append(out, model.KV{K: k, V: v})
+	}
+	// keys at the edges of the key space (every table content may hold them: they are ordinary keys)
+	if len(out) > 0 && g.Intn(4) == 0 {
+		for _, k := range []string{"\x00", "\x00\x00", strings.Repeat("\xff", 1019), strings.Repeat("\xff", 1024), strings.Repeat("\xff", 1019) + "\x00", "\xff", "\x00a"} {
+			if g.Intn(2) == 0 && !seen[k] {
+				seen[k] = true
+				out = append(out, model.KV{K: k, V: []byte("edge-" + fmt.Sprint(len(out)))})
+			}
+		}
 	}
 	sort.Slice(out, func(i, j int) bool { return out[i].K < out[j].K })
 	return out
@@ -445,6 +456,18 @@ func runBackup(r *ev.Run, id caseID) {
 		if i == 2 && g.Intn(2) == 0 {
 			content = nil
 		}
+		if i == 0 {
+			// the first table always holds the keys at the edges of the key space
+			have := map[string]bool{}
+			for _, kv := range content {
+				have[kv.K] = true
+			}
+			for j, k := range edgeKeys {
+				if !have[k] {
+					content = append(content, model.KV{K: k, V: []byte(fmt.Sprintf("edge-%d", j))})
+				}
+			}
+		}
 		for _, kv := range content {
 			if err := put(e, n, kv.K, kv.V); err != nil {
 				r.Inconclusive("fill: " + err.Error())
@@ -651,6 +674,18 @@ func runPIT(r *ev.Run, id caseID) {
 	}
 	var mu sync.Mutex
 	var writes []write
+	// the table holds the keys at the edges of the key space from the start
+	for j, k := range edgeKeys {
+		ctx, cancel := context.WithTimeout(context.Background(), 10*time.Second)
+		v := []byte(fmt.Sprintf("edge-%d", j))
+		resp, err := e.Put(ctx, &pb.PutRequest{Table: []byte("t"), Key: []byte(k), Value: v})
+		cancel()
+		if err != nil {
+			r.Inconclusive("edge key put: " + err.Error())
+			return
+		}
+		writes = append(writes, write{rev: resp.Header.Revision, k: k, v: v})
+	}
 	var stop atomic.Bool
 	var failed atomic.Value
 	var wg sync.WaitGroup
